@@ -83,16 +83,6 @@ theorem specLeaves_eq_dockerSpecLeaves {α : Type} (excl : α → Bool) (text : 
 /-! ### Reification -/
 
 mutual
-/-- No phantom directory anywhere. -/
-def noPhantom : SEntry → Bool
-  | .dir ph cs => !ph && noPhantomChildren cs
-  | _ => true
-def noPhantomChildren : List (Str × SEntry) → Bool
-  | [] => true
-  | (_, e) :: rest => noPhantom e && noPhantomChildren rest
-end
-
-mutual
 /-- Number of directories in an entry. -/
 def dirCount : SEntry → Nat
   | .dir _ cs => 1 + dirCountChildren cs
